@@ -134,6 +134,7 @@ class M:
     alias: Optional[str] = None
     undefined: bool = False  # return type contains UndefinedType
     prop: bool = False
+    inherited: bool = False  # registered by a base class (emitted there), still a method of this class
     order: Optional[str] = None
 
 
